@@ -396,6 +396,20 @@ theorem filter_parser_or (cs : List Crit) {root : Node} (h : root.Distinct) (hw 
   congr 1
   exact TC.ofList_items_of_nodup (uids_nodup_of_sublist List.filter_sublist h)
 
+/-- … and for a document with several roots: every element but the invisible wrapper. -/
+theorem filter_parser_several_roots (cs : List Crit) {root : Node} (h : root.Distinct) (hw : root.elem.tag = wrapperTag)
+    (arg : Option Node) :
+    (filterQ .and_ cs (.parser root arg)).map TC.items = some (fil (fun e => cs.all (Crit.holds e)) root.desc) ∧
+    (filterQ .or_ cs (.parser root arg)).map TC.items = some (fil (fun e => cs.any (Crit.holds e)) root.desc) := by
+  have hn := Node.Distinct.desc h
+  constructor
+  · simp only [filterQ, Option.map_some, qlAnd, (parserAllNodes_wrapper h hw).2]
+    congr 1
+    exact TC.ofList_items_of_nodup (uids_nodup_of_sublist List.filter_sublist hn)
+  · simp only [filterQ, Option.map_some, qlOr, (parserAllNodes_wrapper h hw).2]
+    congr 1
+    exact TC.ofList_items_of_nodup (uids_nodup_of_sublist List.filter_sublist hn)
+
 /-- element.filter / filterOr: the element itself and its descendants (as its docstring says). -/
 theorem filter_element_and (cs : List Crit) {n : Node} (h : n.Distinct) :
     (filterQ .and_ cs (.element n)).map TC.items = some (fil (fun e => cs.all (Crit.holds e)) n.preorder) := by
